@@ -40,6 +40,17 @@
 (*   AlertCloseOnErr  alert node closes its topic also when it failed         *)
 (*   HookNeedsTmLock  alert node start takes tm.mu (registerDeleteHook)       *)
 (*   UdfStopAborts    stopUDF aborts the UDF (original) / does nothing        *)
+(*                                                                            *)
+(* Waiters.  services/task_store runs `et.Wait()` in a goroutine for every    *)
+(* task it starts, so a stop ALWAYS races with a concurrent waiter.           *)
+(* ExecutingTask.Wait walks the nodes in reverse order calling node.Wait and  *)
+(* returns the first error; the stop walks forwards.  node.Wait is            *)
+(* `finishedMu.Lock; if !finished { finished = true; err = <-errCh }; Unlock` *)
+(* - the node goroutine sends exactly ONE value on errCh, `finished`/`err`    *)
+(* are sticky, and the mutex is held across the receive so that any number of *)
+(* concurrent callers all return once the node has finished.  WaitHoldsMu =   *)
+(* FALSE models a Wait that releases the mutex before it receives (two        *)
+(* callers both receive, one blocks for ever).                                *)
 EXTENDS Integers, Sequences, FiniteSets, TLC, Edge
 
 CONSTANTS
@@ -50,7 +61,9 @@ CONSTANTS
     StopKinds,       \* subset of {"task", "close"}
     AllowFail,       \* BOOLEAN: one node may return an error at any time
     MaxN, MaxE,      \* array sizes (>= nodes / edges of every topology)
-    InfluxStopF, ReaderDone, AlertCloseOnErr, HookNeedsTmLock, UdfStopAborts
+    InfluxStopF, ReaderDone, AlertCloseOnErr, HookNeedsTmLock, UdfStopAborts,
+    NWaiters,        \* goroutines blocked in ExecutingTask.Wait() (task_store has one per task)
+    WaitHoldsMu      \* node.Wait holds finishedMu while it receives from errCh (the code)
 
 VARIABLES
     topo, kind,      \* chosen at Init, constant afterwards
@@ -70,10 +83,17 @@ VARIABLES
     delivered,       \* per node: sequence of points handed to the sink
     refused,         \* loopback writes refused with a reported error (TaskMaster closed)
     dropped,         \* points dropped by influxDBOut.enqueue's `stopping` branch
-    failed, panicked
+    failed, panicked,
+    errch,           \* per node: 1 = the node goroutine's one value sits in errCh (buffer 1), 0 = empty / taken
+    fin,             \* per node: node.finished (sticky; node.err is nerr, sticky as well)
+    wmu,             \* per node: holder of finishedMu (0 = free, -1 = the stopper, w = waiter w)
+    wt               \* per waiter: [at, i, res]  ExecutingTask.Wait: reverse walk, res = node whose error is returned
 
+wvars == <<errch, fin, wmu, wt>>
 vars == <<topo, kind, next, wp, wclosed, fk, lock, sdel, E, pc, cur, fi, nerr, wb, hq, rd,
-          mclosed, udone, sp, accepted, delivered, refused, dropped, failed, panicked>>
+          mclosed, udone, sp, accepted, delivered, refused, dropped, failed, panicked, errch, fin, wmu, wt>>
+
+Waiters == 1..NWaiters
 
 -----------------------------------------------------------------------------
 Nodes == 1..Len(topo.kinds)
@@ -121,6 +141,10 @@ Init ==
     /\ delivered = [n \in 1..MaxN |-> <<>>]
     /\ refused = 0 /\ dropped = {}
     /\ failed = FALSE /\ panicked = FALSE
+    /\ errch = [n \in 1..MaxN |-> 0]
+    /\ fin = [n \in 1..MaxN |-> FALSE]
+    /\ wmu = [n \in 1..MaxN |-> 0]
+    /\ wt = [w \in Waiters |-> [at |-> "wait", i |-> Len(topo.kinds), res |-> 0]]
 
 -----------------------------------------------------------------------------
 (* WritePoints and the TaskMaster's forking goroutine                        *)
@@ -459,17 +483,70 @@ StopUdfAbort ==
     /\ sp' = [sp EXCEPT !.at = "wait"]
     /\ UNCHANGED <<topo, kind, next, wp, wclosed, fk, lock, sdel, E, wb, accepted, delivered, refused, failed>>
     /\ UNCHANGED <<cur, fi, hq, rd, mclosed, udone, dropped, panicked>>
-\* n.Wait(): the node goroutine has sent its error; next node, or done: release tm.mu
-StopWait ==
-    /\ sp.at = "wait" /\ pc[sp.i] = "done"
-    /\ IF sp.i < Len(topo.kinds)
-         THEN /\ sp' = [at |-> StopFState(sp.i + 1), i |-> sp.i + 1] /\ UNCHANGED lock
-         ELSE /\ sp' = [at |-> "stopped", i |-> 0] /\ lock' = "free"
-    /\ UNCHANGED <<topo, kind, next, wp, wclosed, fk, sdel, E, wb, accepted, delivered, refused, failed>>
-    /\ UnchangedNodes
+\* ---- node.Wait(), executed by the stopper ("S") and by every waiter ----
+\* what the stopper does once n.Wait() has returned: next node, or done: release tm.mu
+StopAdvance ==
+    IF sp.i < Len(topo.kinds)
+      THEN /\ sp' = [at |-> StopFState(sp.i + 1), i |-> sp.i + 1] /\ UNCHANGED lock
+      ELSE /\ sp' = [at |-> "stopped", i |-> 0] /\ lock' = "free"
+\* finishedMu.Lock(); already finished -> return the sticky error; otherwise go and receive
+StopWaitLock ==
+    /\ sp.at = "wait" /\ wmu[sp.i] = 0
+    /\ IF fin[sp.i]
+         THEN StopAdvance /\ UNCHANGED wmu
+         ELSE /\ sp' = [sp EXCEPT !.at = IF WaitHoldsMu THEN "wlocked" ELSE "wrecv"]
+              /\ wmu' = [wmu EXCEPT ![sp.i] = IF WaitHoldsMu THEN 0 - 1 ELSE 0]
+              /\ UNCHANGED lock
+    /\ UNCHANGED <<errch, fin, wt>>
+\* err = <-errCh; finished = true; Unlock
+StopWaitRecv ==
+    /\ sp.at \in {"wlocked", "wrecv"} /\ errch[sp.i] = 1
+    /\ sp.at = "wrecv" => wmu[sp.i] = 0
+    /\ errch' = [errch EXCEPT ![sp.i] = 0]
+    /\ fin' = [fin EXCEPT ![sp.i] = TRUE]
+    /\ wmu' = [wmu EXCEPT ![sp.i] = 0]
+    /\ StopAdvance
+    /\ UNCHANGED wt
+
+\* ExecutingTask.Wait = rwalk(n.Wait): a node with an error ends the walk with that error
+WaiterAdvance(w) ==
+    LET n == wt[w].i IN
+    wt' = [wt EXCEPT ![w] = IF nerr[n] THEN [at |-> "done", i |-> 0, res |-> n]
+                             ELSE IF n = 1 THEN [at |-> "done", i |-> 0, res |-> 0]
+                             ELSE [at |-> "wait", i |-> n - 1, res |-> 0]]
+WaiterLock(w) ==
+    /\ wt[w].at = "wait" /\ wmu[wt[w].i] = 0
+    /\ IF fin[wt[w].i]
+         THEN WaiterAdvance(w) /\ UNCHANGED wmu
+         ELSE /\ wt' = [wt EXCEPT ![w].at = IF WaitHoldsMu THEN "wlocked" ELSE "wrecv"]
+              /\ wmu' = [wmu EXCEPT ![wt[w].i] = IF WaitHoldsMu THEN w ELSE 0]
+    /\ UNCHANGED <<errch, fin, sp, lock>>
+WaiterRecv(w) ==
+    /\ wt[w].at \in {"wlocked", "wrecv"} /\ errch[wt[w].i] = 1
+    /\ wt[w].at = "wrecv" => wmu[wt[w].i] = 0
+    /\ errch' = [errch EXCEPT ![wt[w].i] = 0]
+    /\ fin' = [fin EXCEPT ![wt[w].i] = TRUE]
+    /\ wmu' = [wmu EXCEPT ![wt[w].i] = 0]
+    /\ WaiterAdvance(w)
+    /\ UNCHANGED <<sp, lock>>
+
+OldVarsButStop == <<topo, kind, next, wp, wclosed, fk, sdel, E, wb, accepted, delivered, refused, failed,
+                    pc, cur, fi, nerr, hq, rd, mclosed, udone, dropped, panicked>>
+WaitStep ==
+    /\ \/ StopWaitLock \/ StopWaitRecv
+       \/ \E w \in Waiters : WaiterLock(w) \/ WaiterRecv(w)
+    /\ UNCHANGED OldVarsButStop
 
 -----------------------------------------------------------------------------
 AllDone ==
+    /\ \A n \in Nodes : pc[n] = "done"
+    /\ \A n \in Nodes : wb[n].at \in {"none", "stopped"}
+    /\ \A n \in Nodes : hq[n].at \in {"none", "done"}
+    /\ \A e \in EIdx : rd[e].at \in {"none", "done"}
+    /\ \A n \in Nodes : NK(n) = "union" => mclosed[n]
+    /\ \A w \in Waiters : wt[w].at = "done"
+\* the task's own goroutines (a waiter is a caller: it may still be on its way back when the stop returns)
+TaskQuiet ==
     /\ \A n \in Nodes : pc[n] = "done"
     /\ \A n \in Nodes : wb[n].at \in {"none", "stopped"}
     /\ \A n \in Nodes : hq[n].at \in {"none", "done"}
@@ -487,11 +564,21 @@ NodeStep(n) ==
     \/ Enqueue(n) \/ WbWrite(n) \/ WbStop(n) \/ NodeFlush(n) \/ NodeAbort(n) \/ NodeAbortWait(n)
     \/ CollectorClose(n) \/ UnionEnd(n) \/ NodeFail(n) \/ Exit(n)
 
+NodeStepNoExit(n) ==
+    \/ StartInflux(n) \/ StartAlert(n) \/ Receive(n) \/ Forward(n)
+    \/ DeliverSync(n) \/ DeliverLoop(n) \/ DeliverAlert(n) \/ Handle(n) \/ HandlerExit(n)
+    \/ AlertClose(n) \/ AlertClosed(n)
+    \/ Enqueue(n) \/ WbWrite(n) \/ WbStop(n) \/ NodeFlush(n) \/ NodeAbort(n) \/ NodeAbortWait(n)
+    \/ CollectorClose(n) \/ UnionEnd(n) \/ NodeFail(n)
+
 Next ==
-    \/ Write \/ ForkTake \/ ForkRLock \/ ForkCollect
-    \/ \E n \in Nodes : NodeStep(n)
-    \/ \E e \in EIdx : ReaderEmit(e) \/ ReaderSend(e) \/ ReaderRelease(e)
-    \/ StopTaskBegin \/ CloseBegin \/ DrainDone \/ StopFlush \/ StopAbort \/ StopAbortWait \/ StopUdfAbort \/ StopWait
+    \/ /\ \/ Write \/ ForkTake \/ ForkRLock \/ ForkCollect
+          \/ \E n \in Nodes : NodeStepNoExit(n)
+          \/ \E e \in EIdx : ReaderEmit(e) \/ ReaderSend(e) \/ ReaderRelease(e)
+          \/ StopTaskBegin \/ CloseBegin \/ DrainDone \/ StopFlush \/ StopAbort \/ StopAbortWait \/ StopUdfAbort
+       /\ UNCHANGED wvars
+    \/ \E n \in Nodes : Exit(n) /\ errch' = [errch EXCEPT ![n] = 1] /\ UNCHANGED <<fin, wmu, wt>>   \* errCh <- err
+    \/ WaitStep
     \/ Terminated
 
 \* Every enabled step is eventually taken (each process is a goroutine that the Go scheduler runs;
@@ -509,7 +596,8 @@ TypeOK ==
     /\ Len(wp.buf) <= K
     /\ \A e \in EIdx : Len(E[e].buf) <= K
     /\ lock \in {"free", "S"}
-    /\ sp.at \in {"idle", "drainw", "fl1", "ab", "abw", "uab", "wait", "stopped"}
+    /\ sp.at \in {"idle", "drainw", "fl1", "ab", "abw", "uab", "wait", "wlocked", "wrecv", "stopped"}
+    /\ \A w \in Waiters : wt[w].at \in {"wait", "wlocked", "wrecv", "done"}
     /\ \A n \in Nodes : /\ NK(n) \in Kinds
                         /\ pc[n] \in {"start", "run", "fwd", "out", "enq", "fin", "finw", "fl1", "ab", "abw", "exit", "done"}
     /\ accepted \subseteq 1..MaxPts
@@ -533,7 +621,12 @@ NoDuplicate == \A o \in Outputs : Cardinality(SeqSet(delivered[o])) = Len(delive
 NothingInvented == \A o \in Outputs : SeqSet(delivered[o]) \subseteq accepted
 NoCollectOnClosed == ~panicked
 \* when the stop call returns no goroutine of the task is left in the no-failure case
-StoppedMeansQuiet == (sp.at = "stopped" /\ ~failed) => AllDone
+StoppedMeansQuiet == (sp.at = "stopped" /\ ~failed) => TaskQuiet
+
+\* every caller of ExecutingTask.Wait gets the same answer (finished/err are sticky)
+WaitersAgree == \A w1, w2 \in Waiters : (wt[w1].at = "done" /\ wt[w2].at = "done") => wt[w1].res = wt[w2].res
+\* errCh carries one value per node: it is consumed exactly once, by whoever records `finished`
+OneShotErrCh == \A n \in Nodes : errch[n] = 1 => ~fin[n]
 
 \* C07 liveness (also after NodeFail): the stop call returns, every goroutine of the task exits
 StopCompletes == <>(sp.at = "stopped")
